@@ -15,7 +15,7 @@ NA_FIXED = {
 # clauses added after the first build (seed rounds 2-4 and the false-alarm studies); appended to the description of the check
 ADDED = {
     'C03': "Later clauses: C03.e lane-wise value numbering of the mul and butterfly kernels (Ssse3 = Avx2 = Neon), C03.g truncated transforms get a zeroed tail (shared with C05.c), C03.h both arms of an ordering test that split a buffer differently touch the same absolute positions, alignment of aligned-load/store intrinsics in C03.b; the schedule comparison has a second opinion on fully inlined, loop-normalised forms. C03.d also: the default engine's dispatcher reaches exactly one compiled eval_poly per detected feature set. A third opinion compares deep normal forms of the schedules (helpers expanded, pure lets substituted, loops in count form, linear index arithmetic), so a one-sided behaviour-preserving rewrite of one engine is accepted while a changed index is not; code shared through a private trait or private generic functions is analysed per instantiation. C03.i byte order fixed: no native- or big-endian integer/byte conversions and no integer-to-byte-array transmutes in non-test code (shared with C08.i, C09.f, C14.g).",
-    'C04': "Later clauses: C04.d also the block index of the partial block and complete rewrite of the store geometry, C04.e/f block and lane pairing, C04.g the shard size steers nothing above the store (value-flow: a branch on it may have at most one successful continuation), C04.h kernels are straight-line lane-wise code (shared with C03.e). C04.c reads a private range-building helper (`self.original_range()`) in place.",
+    'C04': "Later clauses: C04.d also the block index of the partial block and complete rewrite of the store geometry, C04.e/f block and lane pairing, C04.g the shard size steers nothing above the store (value-flow: a branch on it may have at most one successful continuation), C04.h kernels are straight-line lane-wise code (shared with C03.e). C04.c reads a private range-building helper (`self.original_range()`) in place. C04.b also looks inside the work object's own re-packing method: the store's un-encode runs on every path through it or is skipped on the configuration only, never on state kept between calls (round 13; shared as C12.h).",
     'C05': "Later clauses: C05.g no mutation reaches an Err exit (shared with C07), C05.h grow-only lengths (bitmap length, Vec capacity) are read only to decide whether to grow. C05.i new and reset of the default rate decide the rate alike and validate with the selected rate (shared with C09.b); the release configuration (debug assertions off) is analysed too. C05.j the shard store rewrites its whole geometry at each resize (shared with C04.d; a write skipped behind an equality test of the same value counts). C05.e accepts a same-configuration fast path only behind a predicate comparing every configured field. The explicit reset may be two calls (configure + the implicit reset): C05.a then requires the second next to the first at every call site; C05.e also accepts the work object passed to and returned from a private helper by value, or reset directly on the stored local; C05.c accepts a tail zeroing guarded by `truncated < size`; C05.d accepts one loop over a stretch containing a region, two loops writing under complementary tests of the bitmap, and a loop over the set bits next to one writing where the bit is clear (`for`-over-`filter` loops are desugared). C05.k the store's insert copies the shard on every path (a copying call dominates every return): no data-dependent skip leaves earlier bytes in a slot (shared as C09.g).",
     'C06': "Later clauses: C06.d stored configuration is the caller's and the store rewrites its whole geometry, C06.e one-shot functions hand every item to the validating add (shared with C10.b), C06.f round state is cleared at drop and reset (shared with C05.a/b), C06.g census of explicit non-debug panic sites by discharged category. C06.h every dedicated-codec use of the default rate is governed by the decision for the same counts (shared with C09.b), C06.i one predicate per codec kind, associated types included (shared with C08.a), C06.j the optimised engines run the reference schedule, so its in-range slicing holds on every engine (shared with C03.a); an error value bound once and returned at several exits is judged at each exit. C06.k a rejected call changes nothing (shared with C07.atomic). Allocation sizes (Vec::with_capacity / reserve) taken from unchecked counts are sinks; Option-returning position checks are validators. Which reset parameter is which count is derived from the flow of the callers' arguments, not from positions. Two-way selections are read as min/max (values, condition atoms, taint: a bound on max(a, b) bounds both); an Error value handed to a private helper as an argument is judged where the helper returns it, in the caller's context. `if [!]helper(..)[?]` on a private bool / Result<bool, _> helper contributes the conditions of the helper's exit that yields the value. A test `(lo..hi).contains(&x)` with bounds that are not caller-supplied bounds x on its true edge.",
     'C07': "Later: Drop impls of guards as mutation sites, mutations after the failure was produced, same-file private helpers analysed in place (inlined MIR, constant-edge pruning, producers of a re-tried Result). The release configuration (code under cfg(debug_assertions) absent) is analysed as well. Discharge V1: a mutation made by a private helper returning Result<bool, _> does not count against an Err exit taken only for the payload value on which no mutation site of the helper can have run.",
